@@ -467,7 +467,7 @@ def run(chk, replay=None):
         cases = load_corpus() + scenarios()
         depth = 5 if tier == "quick" else 7
         cases += gen(model, ["enum", depth], "enum-depth-%d" % depth)
-        nrand, maxlen = (3200, 40) if tier == "quick" else (150000, 120)
+        nrand, maxlen = (1600, 40) if tier == "quick" else (150000, 120)
         nw = 8
         for j in range(nw):
             cases += gen(model, ["random", rng.randrange(1, 1 << 29), nrand // nw, maxlen], "random")
